@@ -246,11 +246,17 @@ func (p *Prog) callersOf(fn *ssa.Function) []Site {
 		}
 	}
 	add(n)
-	// instantiations of a generic origin
-	for f := range p.AllFuncs {
-		if f.Origin() == fn {
-			add(cg.Nodes[f])
+	// instantiations of a generic origin (incl. the self-instantiations used inside generic bodies)
+	if p.instIdx == nil {
+		p.instIdx = map[*ssa.Function][]*callgraph.Node{}
+		for f, nd := range cg.Nodes {
+			if f != nil && f.Origin() != nil {
+				p.instIdx[f.Origin()] = append(p.instIdx[f.Origin()], nd)
+			}
 		}
+	}
+	for _, nd := range p.instIdx[fn] {
+		add(nd)
 	}
 	sort.Slice(out, func(i, j int) bool { return out[i].Pos() < out[j].Pos() })
 	return out
@@ -566,6 +572,17 @@ func singleStore(a *ssa.Alloc) *ssa.Store {
 		case *ssa.UnOp:
 		case *ssa.DebugRef:
 		case *ssa.Slice:
+		case *ssa.FieldAddr:
+			// read-only field access of a struct local
+			if rr := x.Referrers(); rr != nil {
+				for _, u := range *rr {
+					switch u.(type) {
+					case *ssa.UnOp, *ssa.DebugRef:
+					default:
+						return nil
+					}
+				}
+			}
 		default:
 			return nil
 		}
